@@ -184,6 +184,30 @@ partial def preorderTypes (Γ : Env) : IExpr → List String
   | e@(.op _ args) => showType Γ e :: (args.toList.flatMap (preorderTypes Γ))
   | e => [showType Γ e]
 
+/-- every node of the expression has a type under `typeOf` -/
+partial def allTyped (Γ : Env) : IExpr → Bool
+  | e@(.tern c a b) => (typeOf Γ e).toBool && allTyped Γ c && allTyped Γ a && allTyped Γ b
+  | e@(.seq a b) => (typeOf Γ e).toBool && allTyped Γ a && allTyped Γ b
+  | e@(.call _ args) => (typeOf Γ e).toBool && args.toList.all (allTyped Γ)
+  | e@(.cast _ x) => (typeOf Γ e).toBool && allTyped Γ x
+  | e@(.op _ args) => (typeOf Γ e).toBool && args.toList.all (allTyped Γ)
+  | e => (typeOf Γ e).toBool
+
+def stmtAllTyped (Γ : Env) : IStmt → Bool
+  | .expr e => allTyped Γ e
+  | .ret none => true
+  | .ret (some e) => allTyped Γ e
+  | .init _ e => allTyped Γ e
+
+/-- witness search for release builds: the verdict without the per-node debug check, and whether an accepted
+    statement is typed at every node -/
+def releaseVerdict (Γ : Env) (s : SStmt) : String :=
+  match elabStmt false Γ s with
+  | .ok s' => if stmtAllTyped Γ s' then "accept typed" else "accept ILL-TYPED " ++ showIStmt Γ s'
+  | .error (.reject k) => "reject " ++ k
+  | .error (.panic m) => "panic " ++ panicFile m
+  | .error (.unsupported w) => "unsupported " ++ w
+
 def handle (op : String) (args : List String) : String :=
   match op, args with
   | "C03.conv", [src, dsts] =>
@@ -193,6 +217,10 @@ def handle (op : String) (args : List String) : String :=
   | "C03.prog", [vars, funcs, ret, stmt, _expect] =>
     match parseEnv vars funcs ret, (readSx stmt).bind toSStmt with
     | some Γ, some s => showResult Γ (elabStmt true Γ s)
+    | _, _ => "bad-request"
+  | "C03.release", [vars, funcs, ret, stmt, _expect] =>
+    match parseEnv vars funcs ret, (readSx stmt).bind toSStmt with
+    | some Γ, some s => releaseVerdict Γ s
     | _, _ => "bad-request"
   | "C03.type", [vars, funcs, ret, typed] =>
     match parseEnv vars funcs ret, readSx typed with
